@@ -876,6 +876,7 @@ func runCase(w *tr.Writer, seed uint64, idx int, focus string) {
 		}
 		w.Hist("scenario-" + cfg.scenario)
 	}
+	udpBurst := false
 	for step := 0; step < cfg.steps && !engineDown(); step++ {
 		lp := live()
 		k := rnd.Intn(100)
@@ -924,6 +925,43 @@ func runCase(w *tr.Writer, seed uint64, idx int, focus string) {
 				continue
 			}
 			p := lp[rnd.Intn(len(lp))]
+			if k >= 60 && k < 75 && !udpBurst && cfg.pShutdown == 0 && !engineDown() {
+				// a burst: the loop is held inside the callback of one datagram while 150 more are queued in the
+				// listener's socket behind it; every one of them gets its own event once the loop goes on
+				udpBurst = true
+				h.mu.Lock()
+				h.parkUDP = true
+				first := rnd.Bytes(9)
+				p.dgrams = append(p.dgrams, first)
+				h.mu.Unlock()
+				p.conn.Write(first)
+				select {
+				case <-h.inTraffic:
+				case <-time.After(time.Second):
+				}
+				for i := 0; i < 150; i++ {
+					d := rnd.Bytes(rnd.Pick([]int{1, 20, 100}))
+					h.mu.Lock()
+					p.dgrams = append(p.dgrams, d)
+					h.mu.Unlock()
+					p.conn.Write(d)
+				}
+				time.Sleep(3 * time.Millisecond)
+				close(h.release)
+				for round := 0; round < 40; round++ {
+					recvDgrams(p, 3*time.Millisecond)
+					h.mu.Lock()
+					done := p.delivered >= len(p.dgrams)
+					h.mu.Unlock()
+					if done && round > 2 {
+						break
+					}
+				}
+				quiet()
+				recvDgrams(p, 3*time.Millisecond)
+				w.Hist("udp-burst-150")
+				continue
+			}
 			if k < 75 {
 				sz := rnd.Pick([]int{0, 1, 2, 100, 1000, cfg.bufcap - 1, cfg.bufcap, 1400})
 				if sz > 60000 {
